@@ -158,8 +158,12 @@ Section Chain.
     | None => name
     end.
 
-  Definition resolve_inputs (tc : tclass) (ns : option str) (current : str) (names : list str)
+  (* '::'.join(task_name.split('::')[:-1]) : the namespace under which the task is known in this chain *)
+  Definition ns_of_name (name : str) : option str := nonempty_ns (Some (ns_text name)).
+
+  Definition resolve_inputs (tc : tclass) (current : str) (names : list str)
     : res (list (str * (str + value))) :=
+    let ns := ns_of_name current in
     let decls :=
       map (fun m => {| i_ref := m; i_required := true; i_default := VNone |})
           (expand_tasks (c_meta_inputs tc) names current) ++ c_param_inputs tc in
@@ -195,7 +199,7 @@ Section Chain.
         match cls (n_cls nd) with
         | inr e => inr e
         | inl tc =>
-            match resolve_inputs tc (n_ns nd) name names, process_dependencies1 r names with
+            match resolve_inputs tc name names, process_dependencies1 r names with
             | inl ins, inl rest =>
                 inl ((name, {| n_cls := n_cls nd; n_cfg := n_cfg nd; n_ns := n_ns nd; n_params := n_params nd;
                                n_inputs := ins |}) :: rest)
@@ -298,8 +302,8 @@ Section Chain.
     | y :: r, S k => y :: set_nth k x r
     end.
 
-  (* final _process_dependencies over the new tasks: each name re-resolves the inputs of its object,
-     in the namespace recorded in that (possibly shared) object *)
+  (* final _process_dependencies over the new tasks: each name re-resolves the inputs of its (possibly
+     shared) object in the namespace of that name; for a shared object the last name processed wins *)
   Fixpoint process_dependencies2 (todo : list (str * nat)) (new : list (str * nat)) (objs : list obj) : res (list obj) :=
     match todo with
     | [] => inl objs
@@ -310,7 +314,7 @@ Section Chain.
             match cls (o_cls o) with
             | inr e => inr e
             | inl tc =>
-                match resolve_inputs tc (o_ns o) name (map fst new) with
+                match resolve_inputs tc name (map fst new) with
                 | inr e => inr e
                 | inl ins =>
                     let ins' := map (fun i => (fst i, match snd i with
